@@ -814,6 +814,13 @@ func regTriples(r *rux.Router) string {
 func (regEngine) Corpus() []Case {
 	h := hx
 	return []Case{
+		// two verb routes get the SAME caller slice (a window of a longer array: spare capacity) as middleware, each gets
+		// a Route.Use of its own afterwards, at once and at the end of the run: every route keeps its own chain
+		{Ops: []string{"new 0", "buf 1 2100,2101,2102", "route 1 verb - GET " + h("/c") + " - @1:0:1/~2103",
+			"route 2 verb - GET " + h("/x") + " - @1:0:1/~2104", "route 3 verb - POST " + h("/y") + " - @1:0:2/2105",
+			"route 4 verb - PUT " + h("/z") + " - @1:0:2/2106", "group " + h("/g") + " -", "route 5 verb - GET " + h("/v") + " - @1:1:2/~2107",
+			"route 6 verb - DELETE " + h("/w") + " - @1:1:2/2108", "end", "run", "info 1", "info 2", "info 3", "info 4", "info 5", "info 6",
+			"serve 1 GET", "serve 2 GET", "serve 3 POST", "serve 4 PUT", "serve 5 GET", "serve 6 DELETE"}},
 		// two levels, Use between two routes of one group, a route after the group, late global Use
 		{Ops: []string{"new 0", "use 2000", "group " + h("/a") + " 2001,2002+2",
 			"route 1 verb - GET " + h("/r1") + " - 2003/2004", "use 2005", "group " + h("/b") + " 2006",
@@ -1045,7 +1052,7 @@ func (g *regGen) arg(allowEmpty bool) string {
 	if n == 0 {
 		return "-"
 	}
-	if len(g.bufLen) > 0 && g.r.Chance(1, 10) {
+	if len(g.bufLen) > 0 && g.r.Chance(1, 5) {
 		for b, l := range g.bufLen {
 			if l >= n {
 				return fmt.Sprintf("@%d:%d:%d", b, l-n, l)
@@ -1290,9 +1297,15 @@ func (g *regGen) probes() {
 		for k := g.again(); k > 0; k-- {
 			g.ops = append(g.ops, line)
 		}
-		// a method the route does not have (405 / 404); static routes only, never HEAD/OPTIONS
+		// a method the route does not have (405 / 404); static routes only, never HEAD (it falls back to GET); OPTIONS
+		// in one case in three (the default 405 handler answers it with 200 + Allow: still the fallback chain, inside
+		// the global middleware)
 		if rt.static && len(rt.methods) < 9 && g.r.Chance(1, 3) && !g.shadowed(rt.at) {
-			for _, m := range []string{"DELETE", "PUT", "POST", "GET", "PATCH"} {
+			cands := []string{"DELETE", "PUT", "POST", "GET", "PATCH"}
+			if g.r.Chance(1, 3) {
+				cands = append([]string{"OPTIONS"}, cands...)
+			}
+			for _, m := range cands {
 				has := false
 				for _, x := range rt.methods {
 					if x == m {
